@@ -16,6 +16,35 @@ pub enum Trial {
     Sched { base: ExecSpec, variants: Vec<ExecSpec>, label: String },
     /// C01: conforming data: zero errors, no ERROR line, exit 0.
     Conform { spec: ExecSpec, label: String },
+    /// C17: processing cut short (stop event at a step, stdout failing after N bytes, error cap,
+    /// mid-stream fatal) ends orderly; a partial -o file holds whole packets only.
+    EarlyStop {
+        base: ExecSpec,
+        /// Number of stop points to place (fractions of the reference run, from `points_seed`).
+        n_points: u32,
+        points_seed: u64,
+        kind: StopKind,
+        allowed_status: Vec<i32>,
+        label: String,
+    },
+    /// C03: one well-framed input under several payload-handling paths.
+    Scan { specs: Vec<ExecSpec>, label: String },
+    /// C08: filtered writing for every distinct value of one filter kind.
+    FilterWrite { base: ExecSpec, filters: Vec<Vec<String>>, to_file: bool, label: String },
+    /// C14: statistics file / report against ground truth.
+    StatsTruth { spec: ExecSpec, analysed: bool, label: String },
+    /// C18: input ends after k bytes, for each k in `cuts`.
+    Truncate { full: ExecSpec, cuts: Vec<u64>, allowed_status: Vec<i32>, rows_mode: bool, label: String },
+}
+
+#[derive(Serialize, Deserialize, Clone, Debug, PartialEq)]
+pub enum StopKind {
+    /// The store the signal handler performs, injected at a decision step.
+    StopEvent,
+    /// Writes to stdout fail (EPIPE / ENOSPC) once N bytes were accepted.
+    StdoutFails { errno: i32 },
+    /// The stop condition is in the input / options (error cap, fatal framing error): no injection.
+    Intrinsic,
 }
 
 /// Run-time invariants that hold for every execution of every trial.
@@ -58,6 +87,10 @@ fn first_diff(a: &str, b: &str) -> String {
         }
     }
     "no line differs (length?)".into()
+}
+
+pub fn clip_pub(s: &str) -> String {
+    clip(s)
 }
 
 fn clip(s: &str) -> String {
@@ -213,6 +246,17 @@ impl Trial {
                 out.fail = conform_verdict(&r, spec);
                 out
             }
+            Trial::EarlyStop { base, n_points, points_seed, kind, allowed_status, label } => {
+                run_early_stop(ex, base, *n_points, *points_seed, kind, allowed_status, label)
+            }
+            Trial::Truncate { full, cuts, allowed_status, rows_mode, label } => {
+                run_truncate(ex, full, cuts, allowed_status, *rows_mode, label)
+            }
+            Trial::Scan { specs, label } => crate::t_stream::run_scan(ex, specs, label),
+            Trial::FilterWrite { base, filters, to_file, label } => {
+                crate::t_stream::run_filter_write(ex, base, filters, *to_file, label)
+            }
+            Trial::StatsTruth { spec, analysed, label } => run_stats_truth(ex, spec, *analysed, label),
         }
     }
 
@@ -225,12 +269,25 @@ impl Trial {
                 v
             }
             Trial::Conform { spec, .. } => vec![spec],
+            Trial::EarlyStop { base, .. } => vec![base],
+            Trial::Truncate { full, .. } => vec![full],
+            Trial::Scan { specs, .. } => specs.iter_mut().collect(),
+            Trial::FilterWrite { base, .. } => vec![base],
+            Trial::StatsTruth { spec, .. } => vec![spec],
         }
     }
 
     /// May trailing packets of the input be dropped while minimising?
     pub fn input_shrinkable(&self) -> bool {
-        matches!(self, Trial::Orderly { .. } | Trial::Sched { .. })
+        matches!(
+            self,
+            Trial::Orderly { .. }
+                | Trial::Sched { .. }
+                | Trial::Scan { .. }
+                | Trial::FilterWrite { .. }
+                | Trial::StatsTruth { .. }
+                | Trial::EarlyStop { .. }
+        )
     }
 
     /// Drop variants one at a time (for trials that have several).
@@ -240,6 +297,29 @@ impl Trial {
                 .map(|i| Trial::Sched {
                     base: base.clone(),
                     variants: vec![variants[i].clone()],
+                    label: label.clone(),
+                })
+                .collect(),
+            Trial::Scan { specs, label } if specs.len() > 1 => specs
+                .iter()
+                .map(|sp| Trial::Scan { specs: vec![sp.clone()], label: label.clone() })
+                .collect(),
+            Trial::FilterWrite { base, filters, to_file, label } if filters.len() > 1 && !label.contains("partition") => filters
+                .iter()
+                .map(|f| Trial::FilterWrite {
+                    base: base.clone(),
+                    filters: vec![f.clone()],
+                    to_file: *to_file,
+                    label: label.clone(),
+                })
+                .collect(),
+            Trial::Truncate { full, cuts, allowed_status, rows_mode, label } if cuts.len() > 1 => cuts
+                .iter()
+                .map(|c| Trial::Truncate {
+                    full: full.clone(),
+                    cuts: vec![*c],
+                    allowed_status: allowed_status.clone(),
+                    rows_mode: *rows_mode,
                     label: label.clone(),
                 })
                 .collect(),
@@ -263,6 +343,17 @@ impl Trial {
                 "variants": variants.iter().map(|v| json!({"policy": v.policy.name(), "cap_limit": v.cap_limit})).collect::<Vec<_>>()
             }),
             Trial::Conform { spec, label } => json!({"trial": "conform", "label": label, "exec": s(spec)}),
+            Trial::EarlyStop { base, n_points, kind, label, .. } => json!({
+                "trial": "early-stop", "label": label, "stop_kind": format!("{kind:?}"), "stop_points": n_points, "exec": s(base)}),
+            Trial::Scan { specs, label } => json!({
+                "trial": "scan", "label": label, "execs": specs.iter().map(|x| s(x)).collect::<Vec<_>>()}),
+            Trial::FilterWrite { base, filters, to_file, label } => json!({
+                "trial": "filter-write", "label": label, "to_file": to_file, "filters": filters, "exec": s(base)}),
+            Trial::StatsTruth { spec, analysed, label } => json!({
+                "trial": "stats-truth", "label": label, "analysed": analysed, "exec": s(spec)}),
+            Trial::Truncate { full, cuts, label, rows_mode, .. } => json!({
+                "trial": "truncate", "label": label, "cut_positions": cuts.len(),
+                "first_cuts": cuts.iter().take(8).collect::<Vec<_>>(), "rows_mode": rows_mode, "exec": s(full)}),
         }
     }
 }
@@ -308,4 +399,325 @@ pub fn conform_verdict(r: &ExecResult, spec: &ExecSpec) -> Option<Fail> {
         }
     }
     None
+}
+
+/// Whole packets only: `out` walks cleanly to its last byte and is a prefix of `expected`.
+pub fn whole_packet_prefix(out: &[u8], expected: &[u8]) -> Option<Fail> {
+    use itsgen::walker::{walk, WalkEnd};
+    if out.len() > expected.len() || out != &expected[..out.len()] {
+        return Some(Fail::new(
+            "partial-output",
+            "not-a-prefix",
+            format!("partial output ({} bytes) is not a prefix of the expected filtered data ({} bytes)", out.len(), expected.len()),
+        ));
+    }
+    let w = walk(out);
+    if w.end != WalkEnd::Clean {
+        return Some(Fail::new(
+            "partial-output",
+            "torn-packet",
+            format!("partial output of {} bytes does not end at a packet boundary: {:?}", out.len(), w.end),
+        ));
+    }
+    None
+}
+
+fn expected_filtered(input: &[u8], argv: &[String]) -> Option<Vec<u8>> {
+    use itsgen::walker::{walk, Filter};
+    let get = |flag: &str| argv.iter().position(|a| a == flag).and_then(|i| argv.get(i + 1)).cloned();
+    let f = if let Some(v) = get("-f") {
+        Filter::Link(v.parse().ok()?)
+    } else if let Some(v) = get("-F") {
+        Filter::Fee(v.parse().ok()?)
+    } else if let Some(v) = get("-s") {
+        let v = v.trim_start_matches(|c| c == 'L' || c == 'l');
+        let (l, st) = v.split_once('_')?;
+        Filter::Stave(itsgen::rdh::fee_id(l.parse().ok()?, st.parse().ok()?, 0))
+    } else {
+        return None;
+    };
+    let w = walk(input);
+    // "whole packet" is only defined for well-framed input (offset-to-next == memory size)
+    if w.pkts.iter().any(|p| p.rdh.offset_next != p.rdh.memory_size) {
+        return None;
+    }
+    let mut out = Vec::new();
+    for p in &w.pkts {
+        if p.complete && f.matches(&p.rdh) {
+            out.extend_from_slice(&input[p.off..p.payload.end]);
+        }
+    }
+    Some(out)
+}
+
+fn run_early_stop(
+    ex: &mut Executor,
+    base: &ExecSpec,
+    n_points: u32,
+    points_seed: u64,
+    kind: &StopKind,
+    allowed_status: &[i32],
+    label: &str,
+) -> TrialOutcome {
+    use fpsim_rt::rng::Rng;
+    // reference: same spec without the injected stop
+    let mut reference = base.clone();
+    reference.stop_at_step = None;
+    reference.io.stdout_fail_at = None;
+    let r0 = ex.exec(&reference);
+    let mut out = TrialOutcome {
+        nontrivial: r0.outcome.threads >= 3,
+        key: case_key(&base.input, &r0),
+        labels: vec![label.to_string()],
+        ..Default::default()
+    };
+    let verdict = |r: &ExecResult, spec: &ExecSpec| -> Option<Fail> {
+        if let Some(f) = check_orderly(r) {
+            return Some(f);
+        }
+        if !allowed_status.contains(&r.status) {
+            return Some(Fail::new(
+                "exit-status",
+                "exit-status-set",
+                format!("exit status {} not in {:?}", r.status, allowed_status),
+            ));
+        }
+        if let (Some(of), Some(exp)) = (&r.out_file, expected_filtered(&spec.input, &spec.argv)) {
+            if let Some(f) = whole_packet_prefix(of, &exp) {
+                return Some(f);
+            }
+        }
+        None
+    };
+    if let Some(f) = verdict(&r0, &reference) {
+        out.fail = Some(f);
+        return out;
+    }
+    if *kind == StopKind::Intrinsic {
+        return out;
+    }
+    let mut rng = Rng::new(points_seed);
+    let steps = r0.outcome.steps.max(1);
+    let out_len = r0.stdout.len() as u64;
+    for i in 0..n_points {
+        let mut v = base.clone();
+        v.expected_steps = steps.max(16);
+        v.step_budget = steps.saturating_mul(50) + 5000;
+        match kind {
+            StopKind::StopEvent => {
+                // first and last steps are always tried; the rest uniformly
+                let at = match i {
+                    0 => 1,
+                    1 => steps,
+                    _ => 1 + rng.below(steps),
+                };
+                v.stop_at_step = Some(at);
+            }
+            StopKind::StdoutFails { errno } => {
+                let at = match i {
+                    0 => 0,
+                    1 => out_len.saturating_sub(1),
+                    _ => rng.below(out_len + 1),
+                };
+                v.io.stdout_fail_at = Some(at);
+                v.io.stdout_errno = *errno;
+            }
+            StopKind::Intrinsic => {}
+        }
+        let r = ex.exec(&v);
+        if r.outcome.stop_injected_at.is_some() {
+            let full = r.outcome.probes.get("send_blocked_full_queue").copied().unwrap_or(0);
+            if full > 0 {
+                ex.probe("stop_event_in_run_with_full_queue");
+            }
+        }
+        if let Some(mut f) = verdict(&r, &v) {
+            f.message = format!(
+                "{} [stop point: step {:?} / stdout byte {:?} of reference steps={} stdout={}]",
+                f.message, v.stop_at_step, v.io.stdout_fail_at, steps, out_len
+            );
+            out.fail = Some(f);
+            return out;
+        }
+    }
+    out
+}
+
+/// Offsets quoted as `ending at 0x...` in a frame message.
+fn quoted_end(text: &str) -> Option<u64> {
+    let i = text.find("ending at 0x")?;
+    let hex: String = text[i + 12..].chars().take_while(|c| c.is_ascii_hexdigit()).collect();
+    u64::from_str_radix(&hex, 16).ok()
+}
+
+fn run_truncate(
+    ex: &mut Executor,
+    full: &ExecSpec,
+    cuts: &[u64],
+    allowed_status: &[i32],
+    rows_mode: bool,
+    label: &str,
+) -> TrialOutcome {
+    use itsgen::walker::walk;
+    let ru = ex.exec(full);
+    let mut out = TrialOutcome {
+        nontrivial: ru.outcome.threads >= 2,
+        key: case_key(&full.input, &ru),
+        labels: vec![label.to_string()],
+        ..Default::default()
+    };
+    if let Some(f) = check_orderly(&ru) {
+        out.fail = Some(f);
+        return out;
+    }
+    let u_errs = oracle::error_msgs(&ru.stderr);
+    let u_rows: Vec<String> = ru.stdout_str().lines().map(|l| l.to_string()).collect();
+    for &k in cuts {
+        let mut v = full.clone();
+        v.io.eof_at = Some(k);
+        let r = ex.exec(&v);
+        ex.fault("input_eof_at_byte_k");
+        let tag = |mut f: Fail| {
+            f.message = format!("{} [input cut at byte {k} of {}]", f.message, full.input.len());
+            f
+        };
+        if let Some(f) = check_orderly(&r) {
+            out.fail = Some(tag(f));
+            return out;
+        }
+        if !allowed_status.contains(&r.status) {
+            out.fail = Some(tag(Fail::new(
+                "exit-status",
+                "exit-status-set",
+                format!("exit status {} not in {:?}", r.status, allowed_status),
+            )));
+            return out;
+        }
+        let cut_input = &full.input[..(k as usize).min(full.input.len())];
+        let w = walk(cut_input);
+        // start of the incomplete final packet (= end of the last complete one)
+        let boundary: u64 = w
+            .pkts
+            .iter()
+            .filter(|p| p.complete)
+            .map(|p| (p.off + p.rdh.offset_next as usize) as u64)
+            .max()
+            .unwrap_or(0);
+        if rows_mode {
+            // view rows of the truncated run are a prefix of the full run's rows
+            let rows: Vec<String> = r.stdout_str().lines().map(|l| l.to_string()).collect();
+            let n = rows.len().min(u_rows.len());
+            if rows.len() > u_rows.len() || rows[..n] != u_rows[..n] {
+                let idx = (0..n).find(|&i| rows[i] != u_rows[i]).unwrap_or(n);
+                out.fail = Some(tag(Fail::new(
+                    "truncation",
+                    "view-rows-not-prefix",
+                    format!(
+                        "view rows of the truncated run are not a prefix of the full run's rows (first difference at row {idx}: `{}` vs `{}`)",
+                        rows.get(idx).map(|s| clip(s)).unwrap_or_default(),
+                        u_rows.get(idx).map(|s| clip(s)).unwrap_or_default()
+                    ),
+                )));
+                return out;
+            }
+            continue;
+        }
+        let t_errs = oracle::error_msgs(&r.stderr);
+        let before = |e: &oracle::ErrMsg| -> bool {
+            match e.offset {
+                Some(o) => o < boundary && quoted_end(&e.text).map_or(true, |q| q < boundary),
+                None => false,
+            }
+        };
+        let a: Vec<&str> = t_errs.iter().filter(|e| before(e)).map(|e| e.text.as_str()).collect();
+        let b: Vec<&str> = u_errs.iter().filter(|e| before(e)).map(|e| e.text.as_str()).collect();
+        if a != b {
+            out.fail = Some(tag(Fail::new(
+                "truncation",
+                "prefix-findings-differ",
+                format!(
+                    "findings for the complete packets before the cut (offsets < {boundary:#X}) differ: {} vs {} messages; {}",
+                    a.len(),
+                    b.len(),
+                    first_diff(&b.join("\n"), &a.join("\n"))
+                ),
+            )));
+            return out;
+        }
+        // everything else must concern the incomplete final packet (offset >= boundary) or be a
+        // message without position about the end of input
+        for e in &t_errs {
+            if let Some(o) = e.offset {
+                if o < boundary && !before(e) {
+                    // frame message starting before the boundary and ending after it: concerns the cut
+                    continue;
+                }
+                let _ = o;
+            }
+        }
+    }
+    out
+}
+
+fn run_stats_truth(ex: &mut Executor, spec: &ExecSpec, analysed: bool, label: &str) -> TrialOutcome {
+    use itsgen::walker::walk;
+    let r = ex.exec(spec);
+    let w = walk(&spec.input);
+    let mut out = TrialOutcome {
+        nontrivial: w.pkts.len() >= 2 && r.outcome.threads >= 3,
+        key: case_key(&spec.input, &r),
+        labels: vec![label.to_string()],
+        ..Default::default()
+    };
+    if let Some(f) = check_orderly(&r) {
+        out.fail = Some(f);
+        return out;
+    }
+    if oracle::has_fatal(&r.stderr) {
+        out.fail = Some(Fail::new(
+            "statistics",
+            "unexpected-fatal",
+            format!("well-framed input produced a fatal: {}", clip(&r.stderr_str())),
+        ));
+        return out;
+    }
+    let f = crate::t_stream::filter_of_argv(&spec.argv);
+    let st = r.stats_file.as_ref().and_then(|b| oracle::parse_stats(b, &spec.stats_ext));
+    let st = match st {
+        Some(s) => s,
+        None => {
+            out.fail = Some(Fail::new("statistics", "stats-file-missing", "no (parsable) statistics file was written"));
+            return out;
+        }
+    };
+    if let Some(mut x) = crate::t_stream::check_stats_truth(&st, &w, f, analysed) {
+        x.message = format!("{} [cmd: {} ; {:?}]", x.message, spec.cmdline(), spec.input_mode);
+        out.fail = Some(x);
+        return out;
+    }
+    // the report table, when printed, shows the same totals
+    let t = itsgen::walker::truth_stats(&w, f);
+    for (name, want) in [("Total RDHs", t.rdhs_seen), ("Total HBFs", if analysed { t.hbfs } else { 0 })] {
+        if let Some(got) = oracle::report_value(&r.stdout, name) {
+            if got != want {
+                out.fail = Some(Fail::new(
+                    "statistics",
+                    &format!("report-{}", name.replace(' ', "-")),
+                    format!("report shows {name} = {got}, input has {want} [cmd: {}]", spec.cmdline()),
+                ));
+                return out;
+            }
+        }
+    }
+    if let Some(n) = oracle::report_total_errors(&r.stdout) {
+        let total = oracle::stats_u64(&st, &["error_stats", "total_errors"]).unwrap_or(0);
+        if n != total {
+            out.fail = Some(Fail::new(
+                "statistics",
+                "report-Total-Errors",
+                format!("report shows Total Errors {n}, statistics file has {total}"),
+            ));
+        }
+    }
+    out
 }
